@@ -163,3 +163,39 @@ def same(a, b, compare_ns=True):
             if da.get(k) != db.get(k):
                 return 'public namespace differs at %r: %r != %r' % (k, da.get(k, '<absent>'), db.get(k, '<absent>'))
     return None
+
+
+# ---- second opinion from an interpreter without comprehension inlining (PEP 709) -------------------------------------------------------------
+
+_OTHER = '/root/.pyenv/versions/3.11.7/bin/python'
+
+
+def run_under(exe, source, decoy=False):
+    """observe `source` under another interpreter (separate process); returns the same dict shape as run() without raw_ns, or None"""
+    import json
+    import os
+    import subprocess
+    here = os.path.dirname(os.path.dirname(os.path.dirname(os.path.abspath(__file__))))
+    code = ("import sys, json; sys.path.insert(0, %r); from mc.oracle import observe; observe.DECOY = %r; "
+            "r = observe.run(sys.stdin.read()); print(json.dumps({'stream': repr(r['stream']), 'exc': r['exc'], 'ns': repr(r['ns'])}))" % (here, decoy))
+    try:
+        p = subprocess.run([exe, '-c', code], input=source.encode('utf-8', 'surrogatepass'), stdout=subprocess.PIPE, stderr=subprocess.PIPE, timeout=30)
+        return json.loads(p.stdout.decode('utf-8'))
+    except Exception:
+        return None
+
+
+def inlining_quirk(src, out, compare_ns=True):
+    """CPython 3.12 inlines comprehensions (PEP 709).  3.12.1 then raises UnboundLocalError for a name that is *free* in an outer comprehension when
+    a nested comprehension in the same function uses the same name as its iteration variable - the original program misbehaves, not the
+    minifier.  Returns True when original and output behave identically under an interpreter without inlining (3.11)."""
+    import os
+    if not os.path.exists(_OTHER):
+        return False
+    a = run_under(_OTHER, src, DECOY)
+    b = run_under(_OTHER, out, DECOY)
+    if a is None or b is None:
+        return False
+    if not compare_ns:
+        a, b = dict(a, ns=None), dict(b, ns=None)
+    return a == b
